@@ -165,43 +165,29 @@ Section Aligned.
     - unfold tree_glwe_encrypt_sk. cbn [demand persist]. unfold glwe_encrypt_sk_tmp_bytes in *. cbv zeta in *. lia.
   Qed.
 
-  (* ---- glwe_decrypt: the formula reserves vec_znx_normalize_tmp_bytes, the code calls vec_znx_big_normalize *)
-  Lemma suffices_glwe_decrypt_partial (glwe : infos) : 0 <= i_size glwe -> 0 <= i_rank glwe ->
-    fam = 0 \/ 2 <= i_size glwe ->
+  (* ---- glwe_decrypt *)
+  Lemma suffices_glwe_decrypt (glwe : infos) : 0 <= i_size glwe -> 0 <= i_rank glwe ->
     run_takes (tree_glwe_decrypt fam n glwe) (0, glwe_decrypt_tmp_bytes fam n glwe) <> None.
-  Proof.
-    intros Hs Hr Hside.
+  Proof using Hf Hn0 Hn8.
+    intros Hs Hr.
     pose proof (al_big fam n Hf Hn0 Hn8 1 (i_size glwe) ltac:(lia) Hs) as Hbig.
     pose proof (al_dft fam n Hf Hn0 Hn8 1 (i_size glwe) ltac:(lia) Hs) as Hdft.
-    destruct c_bnorm as [Ab Db].
-    assert (Hcmp : hal_vec_znx_big_normalize_tmp_bytes fam n <=
-                   Z.max (hal_bytes_of_vec_znx_dft fam n 1 (i_size glwe)) (hal_vec_znx_normalize_tmp_bytes fam n)).
-    { autounfold with c12gen. destruct Hside as [-> | H2]; [cbn [Z.eqb]; lia|].
-      assert (n * 2 <= n * i_size glwe) by (apply Z.mul_le_mono_nonneg_l; lia).
-      destruct Hf as [-> | ->]; cbn [Z.eqb]; lia. }
-    assert (0 <= hal_vec_znx_big_normalize_tmp_bytes fam n) by (autounfold with c12gen; destruct Hf as [-> | ->]; cbn [Z.eqb]; lia).
+    destruct c_bnorm as [Ab Db]. pose proof nn2.
     apply aligned_suffices; unfold tree_glwe_decrypt, glwe_decrypt_tmp_bytes; cbv zeta.
     - cbn [aligned_tree]. unfold ALIGN. intuition; lia.
     - cbn [demand persist]. rewrite Db. destruct_loops; lia.
   Qed.
 
   (* ---- glwe_encrypt_pk (pk of the same size as the ciphertext) *)
-  Lemma suffices_glwe_encrypt_pk_partial (res : infos) : 0 <= i_size res -> 0 <= i_rank res ->
-    fam = 0 \/ 2 <= i_size res ->
+  Lemma suffices_glwe_encrypt_pk (res : infos) : 0 <= i_size res -> 0 <= i_rank res ->
     run_takes (tree_glwe_encrypt_pk fam n res (i_size res)) (0, glwe_encrypt_pk_tmp_bytes fam n res) <> None.
-  Proof.
-    intros Hs Hr Hside.
+  Proof using Hf Hn0 Hn8.
+    intros Hs Hr.
     pose proof (al_big fam n Hf Hn0 Hn8 1 (i_size res) ltac:(lia) Hs) as Hbig.
     pose proof (al_dft fam n Hf Hn0 Hn8 1 (i_size res) ltac:(lia) Hs) as Hdft.
     pose proof (al_svp fam n Hf Hn0 Hn8 1 ltac:(lia)) as Hsvp.
     pose proof (al_scalar_znx fam n Hf Hn0 Hn8 1 ltac:(lia)) as Hsz.
-    destruct c_bnorm as [Ab Db].
-    assert (Hcmp : hal_vec_znx_big_normalize_tmp_bytes fam n <=
-                   hal_bytes_of_vec_znx_big fam n 1 (i_size res) + hal_vec_znx_normalize_tmp_bytes fam n).
-    { autounfold with c12gen. destruct Hside as [-> | H2]; [cbn [Z.eqb]; assert (0 <= n * 1 * i_size res) by nn; lia|].
-      assert (n * 2 <= n * i_size res) by (apply Z.mul_le_mono_nonneg_l; lia).
-      destruct Hf as [-> | ->]; cbn [Z.eqb]; lia. }
-    assert (0 <= hal_vec_znx_normalize_tmp_bytes fam n) by (autounfold with c12gen; lia).
+    destruct c_bnorm as [Ab Db]. pose proof nn2.
     apply aligned_suffices; unfold tree_glwe_encrypt_pk, glwe_encrypt_pk_tmp_bytes; cbv zeta.
     - cbn [aligned_tree]. unfold ALIGN. intuition; lia.
     - cbn [demand persist]. rewrite Db. destruct_loops; lia.
@@ -209,22 +195,6 @@ Section Aligned.
 End Aligned.
 
 (* ---- refutations (witnesses replayed on the implementation by the harness) *)
-Lemma suffices_glwe_decrypt_refuted :
-  exists fam n glwe, is_fam fam /\ pow2 n /\ 8 <= n /\ 1 <= i_size glwe /\ 1 <= i_rank glwe /\
-    run_takes (tree_glwe_decrypt fam n glwe) (0, glwe_decrypt_tmp_bytes fam n glwe) = None.
-Proof.
-  exists 1, 8, (mkInfos 8 17 1 1 1 0 1).
-  split; [right; reflexivity|]. split; [exists 3; split; [lia|reflexivity]|]. split; [lia|]. split; [cbn; lia|]. split; [cbn; lia|].
-  vm_compute; reflexivity.
-Qed.
-Lemma suffices_glwe_encrypt_pk_refuted :
-  exists fam n res, is_fam fam /\ pow2 n /\ 8 <= n /\ 1 <= i_size res /\ 1 <= i_rank res /\
-    run_takes (tree_glwe_encrypt_pk fam n res (i_size res)) (0, glwe_encrypt_pk_tmp_bytes fam n res) = None.
-Proof.
-  exists 1, 8, (mkInfos 8 17 1 1 1 0 1).
-  split; [right; reflexivity|]. split; [exists 3; split; [lia|reflexivity]|]. split; [lia|]. split; [cbn; lia|]. split; [cbn; lia|].
-  vm_compute; reflexivity.
-Qed.
 (* below 8 the containers themselves are not multiples of 64 bytes *)
 Lemma suffices_glwe_encrypt_sk_small_n_refuted :
   exists fam n glwe, is_fam fam /\ pow2 n /\ 1 <= i_size glwe /\ 1 <= i_rank glwe /\
